@@ -1,6 +1,7 @@
 import Vita.C11.Lemmas
 import Vita.C11.BigLemmas
 import Vita.C11.CacheLemmas
+import Vita.C11.LambdaLemmas
 /-!
   C11 — save followed by load reproduces the object (property theorems).
 
@@ -187,6 +188,24 @@ theorem cache_reach_clear (io : FloatIO F) (c : Cache F) (hc : c.Reach io) (hlt 
     c.clear.Reach io := Cache.reach_clear io c hc hlt
 theorem cache_reach_clearKey (io : FloatIO F) (c : Cache F) (hc : c.Reach io) (h : Hash) :
     (c.clearKey h).Reach io := Cache.reach_clearKey io c hc h
+
+/-! ### trained models: `serialize::save` then `serialize::lambda::load`, all eight kinds
+    (regression, dynamic slot, gaussian, binary and their `TEAM_` variants) -/
+theorem lambda_load_save (io : FloatIO F) (law : FloatLaw io) (tab : SymTab) (x : Lambda F)
+    (hk : x.ok io tab) (r : Str) : Lambda.load io tab (x.save io ++ r) = some (x, x.tail ++ r) :=
+  Lambda.load_save io law tab x hk r
+
+theorem lambda_save_load_save (io : FloatIO F) (law : FloatLaw io) (tab : SymTab) (x x' : Lambda F)
+    (hk : x.ok io tab) (rest : Str) (hl : Lambda.load io tab (x.save io) = some (x', rest)) :
+    x'.save io = x.save io := by
+  have := Lambda.load_save io law tab x hk []
+  simp only [List.append_nil] at this
+  rw [this] at hl
+  cases hl; rfl
+
+/-- class names as they come out of a dataset -/
+example : Names.ok [['I', 'r', 'i', 's', ' ', 's'], [], ['C', '3']] := by
+  refine ⟨by decide, by decide, by decide, 'I', ['r', 'i', 's', ' ', 's'], rfl, by decide⟩
 
 /-! ### non-vacuity -/
 
